@@ -137,6 +137,8 @@ def workload(draw):
         'pre': draw(st.lists(ops_s, max_size=4)),
         'ops': draw(st.lists(ops_s, min_size=1, max_size=8)),
         'picks': draw(st.lists(st.integers(0, 10**6), min_size=24, max_size=24)),
+        # the kill may also land while the directory is being created for the first time (no pre-state then)
+        'kill_in_creation': draw(st.integers(0, 4)) == 0,
     }
 
 
@@ -280,7 +282,16 @@ def reference_run(env, case):
     """Unkilled run on a twin directory: contents after every op, yield-point labels."""
     seams = get_seams(env)
     path = env.scratch.fresh('c07ref')
-    obj, cache = open_target(path, case)
+    creation = Counter()
+    if case.get('kill_in_creation'):
+        creation.op = -1
+        creation.active = True
+        seams.ctl = creation
+    try:
+        obj, cache = open_target(path, case)
+    finally:
+        creation.active = False
+        seams.ctl = Controller()
     observer_obj, observer = open_target(path, case)
     mids = {}
 
@@ -289,9 +300,11 @@ def reference_run(env, case):
         mids.setdefault(j, []).append(logical(observer_obj, observer, case['target'])[0])
 
     ctl = Counter(on_commit=on_commit)
+    ctl.n = creation.n
+    ctl.labels = list(creation.labels)
     states = []
     try:
-        for op in case['pre']:
+        for op in ([] if case.get('kill_in_creation') else case['pre']):
             apply(obj, case['target'], op)
         states.append(logical(obj, cache, case['target'])[0])
         seams.ctl = ctl
@@ -320,12 +333,18 @@ def killed_run(env, case, k):
     if pid == 0:
         try:
             os.close(r)
-            obj, cache = open_target(path, case)
-            for op in case['pre']:
-                apply(obj, case['target'], op)
             ctl = Counter(kill_at=k)
             seams.ctl = ctl
-            os.write(w, b'P')
+            if case.get('kill_in_creation'):
+                os.write(w, b'P')
+                ctl.op = -1
+                ctl.active = True
+            obj, cache = open_target(path, case)
+            ctl.active = False
+            if not case.get('kill_in_creation'):
+                for op in case['pre']:
+                    apply(obj, case['target'], op)
+                os.write(w, b'P')
             for j, op in enumerate(case['ops']):
                 ctl.op = j
                 ctl.active = True
@@ -373,6 +392,8 @@ def verdict(env, case, path, done, killed, states, label, mids):
         before = states[done]
         after = states[done + 1] if done < len(ops) else states[done]
         opname = ops[done][0] if done < len(ops) else None
+        if isinstance(label, tuple) and len(label) > 2 and label[2] == -1:
+            after, opname = before, 'creation'  # killed while the directory was being created: nothing was stored yet
         ok = strict(real) == strict(before) or strict(real) == strict(after)
         if not ok and opname in COMPOUND:
             # bulk removals and compound loops may be partly applied: any transaction boundary of the reference run
@@ -439,7 +460,7 @@ class Kills(SubCheck):
                 chosen.append(idxs[case['picks'][n % len(case['picks'])] % len(idxs)])
         else:
             chosen = list(range(1, total + 1))
-        h = case_hash({k: case[k] for k in ('target', 'size_limit', 'maxlen', 'pre', 'ops')})
+        h = case_hash({k: case.get(k) for k in ('target', 'size_limit', 'maxlen', 'pre', 'ops', 'kill_in_creation')})
         nontrivial_keys = []
         classes = {}
         count = 0
@@ -451,7 +472,7 @@ class Kills(SubCheck):
                     raise HarnessError('child was not killed at yield point %d of %d (label %s)' % (k, total, lab))
                 count += 1
                 try:
-                    debris = verdict(env, case, path, done, killed, states, (k, lab), mids)
+                    debris = verdict(env, case, path, done, killed, states, (k, lab, j), mids)
                 except Violation as v:
                     v.min_case = dict(case, kill=k)
                     raise
@@ -460,6 +481,10 @@ class Kills(SubCheck):
             classes['kill@' + lab] = classes.get('kill@' + lab, 0) + 1
             if debris:
                 classes['debris-left'] = classes.get('debris-left', 0) + 1
+            if j < 0:
+                classes['kill-in-creation'] = classes.get('kill-in-creation', 0) + 1
+                nontrivial_keys.append('%s/creation/%s/%d' % (h, lab, k))
+                continue
             op = case['ops'][j]
             inside = done == j and any(l[0] == j for l in labels[:k - 1])
             filey = 'B' in repr(op) or 'T' in repr(op) or 'P' in repr(op) or op[0].startswith('bulk')
